@@ -8,7 +8,14 @@
 (* title - the <title> (atoms; the namespace's canonical prefix atom first    *)
 (*         for ns # 0, as MediaWiki writes dumps; "/documentation" and        *)
 (*         "/testcases" occur only as atoms of their own)                     *)
-(* red   - NoRedirect or the <redirect title=..> attribute (atoms)            *)
+(* red   - NoRedirect or the <redirect title=..> attribute (atoms): optional   *)
+(*         ":" atom (leading colon), optional namespace-prefix atom (any      *)
+(*         spelling of DOMAIN PfxNs), base atoms (underscore = "US" or "_",   *)
+(*         space = "SP" or " "), optional "#" atom followed by the fragment;  *)
+(*         recorded traces put the marker atom "=>" first.  The target is     *)
+(*         independent of the page's own namespace: a page of any namespace   *)
+(*         may point to the main namespace (no prefix), to its own or another *)
+(*         namespace, to another redirect (chains) or to itself               *)
 (* body  - identifier of the <text> (the concrete text lives in the harness;  *)
 (*         equality of identifiers = byte equality of texts)                  *)
 (* inc   - identifier of the includable part of that text                     *)
@@ -53,6 +60,69 @@ AmbiguousDump(d) == \E k \in 1..Len(d) : Ambiguous(d[k])
 \* to rows with these keys
 AmbKeys(d) == {[title |-> d[k].title, ns |-> d[k].ns] : k \in {i \in 1..Len(d) : Ambiguous(d[i])}}
 OnlyAmbiguousRows(d, rows) == \A r \in rows : [title |-> r.title, ns |-> r.ns] \in AmbKeys(d)
+Unambiguous(d, rows) == {r \in rows : [title |-> r.title, ns |-> r.ns] \notin AmbKeys(d)}
+
+(* ------------------------------------------------------------------ *)
+(* redirect targets: what a written target denotes, the form MediaWiki *)
+(* exports it in, and its other spellings                              *)
+(* ------------------------------------------------------------------ *)
+RedMark == "=>"
+RedAtoms(r) == IF StartsWith(r, RedMark) THEN Tail(r) ELSE r
+Marked(r, s) == IF StartsWith(r, RedMark) THEN <<RedMark>> \o s ELSE s
+Uncolon(a) == IF StartsWith(a, ":") THEN Tail(a) ELSE a
+HasPfx(a) == Len(a) > 0 /\ IsPfx(a[1])
+Unprefix(a) == IF HasPfx(a) THEN Tail(a) ELSE a
+FragPos(a) == IF \E k \in 1..Len(a) : a[k] = "#"
+              THEN CHOOSE k \in 1..Len(a) : a[k] = "#" /\ \A j \in 1..(k - 1) : a[j] # "#"
+              ELSE Len(a) + 1
+Unspace(a) == [i \in 1..Len(a) |-> IF a[i] = "US" THEN "SP" ELSE IF a[i] = "_" THEN " " ELSE a[i]]
+\* the page (and section) a written target denotes: no prefix = main namespace,
+\* whatever the namespace of the redirecting page is
+Denote(r) ==
+  LET a1 == Uncolon(RedAtoms(r))
+      a2 == Unprefix(a1)
+      fp == FragPos(a2)
+  IN [ns |-> IF HasPfx(a1) THEN PfxNs[a1[1]] ELSE 0,
+      base |-> Unspace(SubSeq(a2, 1, fp - 1)),
+      frag |-> SubSeq(a2, fp, Len(a2))]
+\* the spelling a MediaWiki export uses: canonical prefix, spaces, no leading colon,
+\* no fragment.  For these the statement's "redirect target" is the written string.
+CanonicalTarget(r) ==
+  LET a == RedAtoms(r) IN
+  /\ ~StartsWith(a, ":")
+  /\ \A k \in 1..Len(a) : a[k] \notin {"US", "_", "#"}
+  /\ HasPfx(a) => (HasCanon(PfxNs[a[1]]) /\ a[1] = CanonPfx[NsKey(PfxNs[a[1]])])
+\* all spellings of the page a target denotes (prefix spelled any way, with/without
+\* leading colon, underscores or spaces, with/without the fragment).  A target that is
+\* NOT written canonically may be stored in any of these without contradicting the
+\* statement (drift); any other stored value names another page.
+PfxSpellings(ns) == IF ns = 0 THEN {<<>>} ELSE {<<x>> : x \in {y \in DOMAIN PfxNs : PfxNs[y] = ns}}
+AltSpellings(r) ==
+  LET d == Denote(r)
+      a2 == Unprefix(Uncolon(RedAtoms(r)))
+      raw == SubSeq(a2, 1, FragPos(a2) - 1)
+  IN {Marked(r, c \o p \o b \o f) :
+        c \in {<<>>, <<":">>}, p \in PfxSpellings(d.ns), b \in {raw, d.base}, f \in {<<>>, d.frag}}
+\* two stores that differ only in redirect targets
+RedirectOnlyDiff(exp, obs) ==
+  /\ exp # obs
+  /\ \A r \in exp \ obs : \E u \in obs \ exp : u = [r EXCEPT !.redirect = u.redirect]
+  /\ \A u \in obs \ exp : \E r \in exp \ obs : u = [r EXCEPT !.redirect = u.redirect]
+\* ... and every difference is another spelling of a target not written canonically
+RespelledOnly(exp, obs) ==
+  /\ RedirectOnlyDiff(exp, obs)
+  /\ \A r \in exp \ obs :
+       /\ r.redirect # NoRedirect /\ ~CanonicalTarget(r.redirect)
+       /\ \A u \in obs \ exp : u = [r EXCEPT !.redirect = u.redirect] => u.redirect \in AltSpellings(r.redirect)
+\* the rows whose target may be respelled, with the admissible spellings
+SoftRedirects(S) ==
+  {[title |-> r.title, ns |-> r.ns, alts |-> AltSpellings(r.redirect)] :
+     r \in {x \in S : x.redirect # NoRedirect /\ ~CanonicalTarget(x.redirect)}}
+
+\* the redirect target add_page stores: the written one.  Hypothetical deviation used
+\* as vacuity guard (Demo_Ingest_red): the target is normalised like a title
+StoredRed(p) == IF p.red # NoRedirect /\ "RedirectTreatedAsTitle" \in Dev
+                THEN NormAdd(p.red, p.ns) ELSE p.red
 
 \* the text that is stored for a page
 StoredBody(p) == IF p.red # NoRedirect THEN NullBody
@@ -92,7 +162,7 @@ FoldDump(d, sel, k, strip) ==
   ELSE LET S == FoldDump(d, sel, k - 1, strip)
            p == d[k] IN
        IF Selected(p, sel)
-       THEN Upsert(S, Row(AddTitle(p.title, p.ns, strip), p.ns, p.red, StoredBody(p), p.model))
+       THEN Upsert(S, Row(AddTitle(p.title, p.ns, strip), p.ns, StoredRed(p), StoredBody(p), p.model))
        ELSE S
 RECURSIVE FoldDefaults(_, _, _)
 FoldDefaults(S, k, strip) ==
@@ -127,7 +197,7 @@ ParsePage ==
      THEN phase' = "defaults" /\ pos' = 1 /\ UNCHANGED psvars
      ELSE LET p == dump[pos] IN
           /\ IF Selected(p, sel)
-             THEN AddPage(p.title, p.ns, p.red, StoredBody(p), p.model)
+             THEN AddPage(p.title, p.ns, StoredRed(p), StoredBody(p), p.model)
              ELSE UNCHANGED psvars
           /\ pos' = pos + 1 /\ phase' = phase
   /\ UNCHANGED <<dump, sel>>
@@ -158,6 +228,15 @@ NothingLostOrMerged == IDone => NothingMerged(dump, sel, cur)
 \* while parsing, the store is what the property demands of the prefix read so far
 PrefixIsExpected ==
   (phase = "parse") => cur = ExpectedDump(SubSeq(dump, 1, pos - 1), sel)
+\* every selected redirect page (the last one of its key) is stored with the target
+\* that was written, whatever the namespaces of the page and of the target are
+LastOfKey(d, s, k) == \A j \in SelIdx(d, s) : j > k => ~SameKey(d[k], d[j])
+RedirectsVerbatim ==
+  IDone => \A k \in SelIdx(dump, sel) :
+             (dump[k].red # NoRedirect /\ LastOfKey(dump, sel, k)) =>
+               \E r \in cur : /\ r.title = dump[k].title /\ r.ns = dump[k].ns
+                              /\ r.redirect = dump[k].red
+                              /\ Denote(r.redirect) = Denote(dump[k].red)
 \* the functional fold and the action sequence agree (both ideal and as-is depend on Dev
 \* only through NormAdd; the fold adds the as-is stripping by itself)
 FoldAgrees == IDone => cur = StoreAfter(dump, sel, "MainPrefixStrippedOnAdd" \in Dev)
